@@ -21,7 +21,6 @@ import (
 	"encoding/hex"
 	"fmt"
 	"math/bits"
-	"runtime/debug"
 	"sort"
 	"strconv"
 	"strings"
@@ -950,7 +949,6 @@ func (h *c31h) replay(id string) {
 func TestVerifC31(t *testing.T) {
 	r := vk.Start(t, "C31")
 	defer r.Finish()
-	defer debug.SetGCPercent(debug.SetGCPercent(800)) // many tiny short-lived decoders; live heap is a few MB
 	c31checkTables(t)
 	h := c31new(r)
 	defer h.flush()
